@@ -22,6 +22,11 @@ CHECKS = {
          "All relative offsets of dest against src in [-(len+16), len+16] for the listed lengths and 11 positions of each auxiliary buffer inside/straddling the output and input regions are executed for 21 overlap-tolerant functions; result must equal F(inputs before the call).",
          "Trusted: TLC, spec/ref belt semantics, the arena harness. ECB (no overlap statement in its header), bash/brng/DER helpers not yet driven.",
          "DESIGN.md section 4, C11"),
+ "C14": ("other",
+         "noninterference (2-safety) monitor spec/mon/CT.tla checked by TLC over program-counter traces recorded by a ptrace single-stepper on the optimised objects of the current tree; value equality of SAFE and FAST editions against the TLA+ arithmetic specification",
+         "Every SAFE edition of the 33 SAFE/FAST pairs, the tag/hash/header verification entry points and the symmetric primitives are single-stepped for enumerated secret variants per public length; all PC traces of one public class must coincide (the irregular FAST(memEq) must be flagged: sensor self-test). Address independence is not part of the statement and not checked.",
+         "Trusted: PTRACE_SINGLESTEP as the sensor of executed branches, TLC, the secret-variant classes of harness/drv_ct.c; x86-64 objects produced by gcc -O2 (thorough: also -O3 and clang -O2).",
+         "DESIGN.md section 4, C14"),
  "C20": ("model_checking",
          "TLC exhaustive model checking of sm/BtokPwd.tla rules on the transition table extracted from btokPwdTransition; counterexample replay; trace validation of random walks (trace/Trace_Pwd.tla)",
          "Exhaustive: all 16x4 states x 9 events of the real function are extracted, TLC checks rules R1..R8 on that graph from every initial PIN state (complete finite space), every counterexample is re-executed on the real function, and recorded random walks are validated step by step.",
